@@ -85,9 +85,28 @@ def meta(prop, **kw):
     META[prop] = kw
 
 
+NATIVE_DRIVERS = ("fmt_driver", "frame_driver", "sock_driver", "conc_driver", "queue_driver", "queue_conc", "macro_driver", "holder_driver", "hostile_driver")
+
+
+def unwinding_callers(jobs):
+    """"Who calls" includes a thread that is unwinding from a panic of its own (a guard object's destructor reporting a metric,
+    flushing or dropping a sink, setting the global client): every third job of the native drivers makes every third guarded
+    call of each of its threads from such a destructor (`thread::panicking()` is true inside the library). Nothing in any of
+    the properties depends on it, so all oracles stay as they are."""
+    k = 0
+    for j in jobs:
+        if os.path.basename(j.argv[0]) in NATIVE_DRIVERS and "--unwinding-every" not in j.argv:
+            k += 1
+            if k % 3 == 0:
+                j.argv += ["--unwinding-every", "3"]
+    return jobs
+
+
 def plan(prop):
     def deco(f):
-        PLAN[prop] = f
+        def g(bindir, tier, seed):
+            return unwinding_callers(f(bindir, tier, seed))
+        PLAN[prop] = g
         return f
     return deco
 
